@@ -356,3 +356,33 @@ Proof.
     - intros i j Hi Hj. small2 i; small2 j; unfold Mx, Gx; calc2; try (exfalso; lia). }
   exists (fun _ _ => 1). intros i j Hi Hj. small2 i; small2 j; unfold Mx, Gx; calc2; try (exfalso; lia).
 Qed.
+
+(* ---------- the direct branch with the hypotheses pushed down to the oracles: the LAST tl.qr answer meets the reduced-QR contract,
+   the last sketch M @ P spans the columns of M (the probabilistic part), LAPACK's contract on the reduced matrix ---------- *)
+Theorem randomized_svd_direct_from_sketch_partial (svd : list (list R) -> bool -> triple R) (qr : nat -> list (list R) -> list (list R))
+    (G M : list (list R)) d1 d2 n n_over n_iter U Sg V :
+  rect d1 d2 M -> (1 <= d1)%nat ->
+  let k := n_kept d1 d2 n in
+  dec_rand_transposed d1 d2 k (Nat.min d1 d2) (dec_rand_ndims k n_over (Nat.max d1 d2)) = false ->
+  let idx := fst (final_test qr M d2 G n_iter) in
+  let P := snd (final_test qr M d2 G n_iter) in
+  let w := ncols P in
+  qr_ok d1 w (mmul Rops w M P) (qr idx (mmul Rops w M P)) ->
+  spans d1 d2 w (mg M) (mg (mmul Rops w M P)) ->
+  let c := Nat.min d1 w in
+  let Q := range_finder Rops qr M d2 G n_iter in
+  let Mred := mmul Rops d2 (transp Rops c Q) M in
+  (forall f, svd_contract c d2 (mg Mred) f (svd Mred f)) ->
+  randomized_svd Rops svd qr G M d1 d2 n n_over n_iter = (U, Sg, V) ->
+  let kk := Nat.min k (Nat.max c d2) in
+  nonneg_list Sg /\ nonincreasing Sg /\
+  orthonormal_cols d1 (Nat.min kk c) (mg U) /\ orthonormal_rows (Nat.min kk d2) d2 (mg V) /\
+  (forall B, rank_le d1 d2 k B ->
+     frob2 d1 d2 (fun i j => mg M i j - recon U Sg V i j) <= frob2 d1 d2 (fun i j => mg M i j - B i j)).
+Proof.
+  intros HM Hd1 k HB idx P w HQR HSP c Q Mred HSVD E kk.
+  destruct (range_finder_covers qr M d1 d2 G n_iter HM HQR HSP) as (RQ & OQ & CQ).
+  destruct (randomized_svd_direct_partial svd qr G M d1 d2 n n_over n_iter c U Sg V HM Hd1 HB RQ OQ CQ HSVD E)
+    as (_ & _ & N1 & N2 & OU & OV & _ & BA).
+  split; [exact N1 | split; [exact N2 | split; [exact OU | split; [exact OV | exact BA]]]].
+Qed.
